@@ -49,3 +49,18 @@ SPEC = dict(
 
 def run(tier, seed):
     return svlib.run_spec(SPEC, tier, seed)
+
+MANIFEST = dict(
+    claimed=True,
+    technique="Lean 4 theorem over all crash/I-O-error prefixes of the fetch step list (any number of files, any step, both failure "
+              "kinds, half-done states) + code-shape table regenerated from source + fault-injection correspondence on a local git repository",
+    text="proof: C30_safe / C30_never_partial / C30_final_gone_or_full / C30_safe_history hold for every failure point of the model of "
+         "the fetch AFTER the fix: commit dafe540 (checkout into a staging directory, one rename into place); C30_code_shape ties the "
+         "model's step list to the order of file-system calls in the current source (gen/fetch_steps.py, fail closed); the pre-fix "
+         "code is proved unsafe by explicit witnesses (C30_orig_uses_partial, C30_orig_stuck) that were replayed on the real code. "
+         "Every fault point x {abort, err} x {with, without Forc.lock} is injected into the real BuildPlan::from_pkg_opts in child "
+         "processes and the later build's decision is compared with the model.",
+    note="trusted: Lean kernel + propext/Quot.sound; rename(2) of a directory atomic w.r.t. process death; no loss of completed writes "
+         "(code does not fsync); libgit2 writes blobs in index order; hook H5 placement; harness. Upstream violated the property "
+         "(partial checkout used / stuck error after a crash) — repaired by fix: dafe540.",
+)
